@@ -544,9 +544,18 @@ def run_notifier(hist, threaded):
                     log(e="stopret")
         th = threading.Thread(target=body, daemon=True)      # a do() that blocks on an empty queue must not hang the check
         th.start()
-        th.join(10)
+        t0, stuck = time.time(), 0
+        while th.is_alive() and time.time() - t0 < 30:
+            th.join(0.002)
+            # blocked inside queue.get(): observed in threading.py's Condition.wait on consecutive looks, with no event
+            # logged in between - an item the queue should still hold is gone
+            n = len(ev)
+            stuck = stuck + 1 if (_in_threading(th) and n == getattr(run_notifier, "_n", -1)) else 0
+            run_notifier._n = n
+            if stuck >= 25:
+                break
         log(e="drain")
-        return ev
+        return list(ev)
     stopped = False
     nm.start(sleep=NORM)
     for tok in hist:
